@@ -423,7 +423,16 @@ func (s *Server) maybeUpgrade(
 			}
 			go socket.Send(noop)
 		case parser.PacketTypeUpgrade:
-			once.Do(func() { close(done) })
+			// The upgrade either finishes or times out, not both.
+			// If the timeout has already been handled (see below), the transport is closed. Do not switch to it.
+			proceed := false
+			once.Do(func() {
+				proceed = true
+				close(done)
+			})
+			if !proceed {
+				return
+			}
 			socket.upgradeTo(t, c)
 		default:
 			t.Close()
@@ -477,6 +486,13 @@ func (s *Server) maybeUpgrade(
 		case <-done:
 			s.debug.Log("`done` triggered")
 		case <-time.After(s.upgradeTimeout):
+			// `done` and the timeout can be ready at the same time.
+			// If the upgrade is already finished, `t` is the current transport. Do not close it.
+			timedOut := false
+			once.Do(func() { timedOut = true })
+			if !timedOut {
+				return
+			}
 			t.Close()
 			socket.onError(fmt.Errorf("eio: upgrade failed: %w", errUpgradeTimeoutExceeded))
 		}
